@@ -290,9 +290,21 @@ struct HCont : Harness {
     std::vector<std::string> ops = p.list("ops");
     std::set<int> kinds;
     int idx = 0;
+    bool tainted = false;
     for (auto &t : ops) {
       OpRec op; if (!op_parse(t, op)) { idx++; continue; }
       kinds.insert(op.code);
+      // after an absorbed allocation failure the shadow no longer describes the containers: only operations that are valid on a
+      // container in ANY consistent state are issued (no index taken modulo a shadow size, no documented-abort expectations)
+      if (tainted) {
+        static const int shape_free[] = {M_NEW, M_RESIZE, M_COPY, M_APPEND_ROW, M_APPEND_COL, M_APPEND_UIROW, M_APPEND_UICOL, M_SETALL, M_REINIT, M_GET, M_SET, M_GETROW, M_GETCOL,
+                                         D_NEW, D_RESIZE, D_APPEND, D_REMOVE, D_COPY, D_EXTEND, D_SETALL, D_SORT, D_REINIT, U_NEW, U_RESIZE, U_APPEND, U_REMOVE, U_EXTEND, U_SET, U_SETALL, U_SORT, U_INDEXOF, U_HAS, U_REINIT,
+                                         I_NEW, I_APPEND, I_REMOVE, I_EXTEND, I_SET, I_SETALL, I_HAS, I_REINIT, S_APPEND, S_APPEND_INT, S_APPEND_DBL, S_RESIZE, S_EXTEND, S_SPLIT, S_REINIT,
+                                         T_NEW, T_ADD, T_SETALL, T_COPY, T_GET, T_REINIT, L_APPEND, L_REINIT};
+        bool ok = false; for (int c2 : shape_free) if (c2 == op.code) ok = true;
+        if (!ok) { idx++; continue; }
+        o.counters["probe.op_after_absorbed_alloc_failure"]++;
+      }
       Exec e; e.p = pools; e.op = &op; e.o = &o;
       if (op.fail_at) sim_alloc_fail_at((uint64_t)op.fail_at); else sim_alloc_fail_at(0);
       uint64_t fails_before = sim_alloc_failures();
@@ -309,11 +321,16 @@ struct HCont : Harness {
           o.fail(std::string("abort-on-valid:") + op_name[op.code], m); break;
         }
         // nothing survives a crash: discard the pools (leaked) and continue on fresh ones
-        pools = new Pools(); pools_init(*pools);
+        pools = new Pools(); pools_init(*pools); tainted = false;
       } else {
-        if (failed_alloc) {  // the failed allocation was absorbed without an abort: contents are unspecified from here on
+        if (failed_alloc) {
+          // The failed allocation was absorbed without the documented abort.  Contents are unspecified from here on (no shadow
+          // comparison any more), but memory safety still has to hold: the history goes on over the same containers, and a
+          // later NULL dereference or use of a half-built object is reported by the sanitizers like any other violation.
           o.counters["fault.alloc_failure_absorbed"]++;
-          pools = new Pools(); pools_init(*pools);
+          tainted = true;
+        } else if (tainted) {
+          // nothing to compare
         } else {
           if (!e.mismatch.empty()) { char m[400]; snprintf(m, sizeof m, "operation %d (%s): %s", idx, op_name[op.code], e.mismatch.c_str()); o.fail(std::string("shadow-mismatch:") + op_name[op.code], m); break; }
           std::string why;
